@@ -33,7 +33,7 @@ def process_chunk_c10(args):
         cases = []
         for i, rec in enumerate(recs):
             for v in range(nvar):
-                c = l3.Concretiser(seed, chunk_no * 100000 + i, v, styles=["shared_prefix", "unicode", "escapes", "long", "ascii", "control"])
+                c = l3.Concretiser(seed, chunk_no * 100000 + i, v, styles=["shared_prefix", "unicode", "escapes", "long", "ascii", "control", "nul_tail"])
                 tree = c.line(rec["in"], len(cases))
                 cases.append((rec, tree, c.leaves, jsonx.dumps(tree)))
         texts = [c[3] for c in cases]
